@@ -151,7 +151,7 @@ CLAIMED["C14"] = dict(
          "every filter combination and caps, no explicit packets-per-second limit, every oracle: if the run ended because all normal packets were processed (the caps did not bind), the returned trace satisfies C14.holds - the predicate the monitor evaluates on the "
          "implementation's output: only plain packet events, the client's TunnelSent at exactly every s time and TunnelRecv at exactly every r time, the server's mirror image shifted by the delay, ordered by time. Built from: the window-covering lemma (the trace-derived limit is never exceeded by the "
          "1 s sliding count, so the bottleneck adds nothing), the heap-order invariant of the bit-faithful BinaryHeap model (the served event is a minimum of all eight heaps, so nothing is served late or moved), exact per-iteration successors, and the per-hop lemmas. "
-         "Progress is proved too (C14_progress, C14_identity_total, _raw_total, _sim_total; Proofs/SimProgress.lean): for every non-empty time-ordered trace strictly within Duration::MAX, limit fractions in [0,1], continue_after_all_normal off, max_sim_iterations and max_trace_length each 0 or at least 4 x |trace| (and model loop fuel of that size), the machine-less run never faults, ends because all normal packets were processed after exactly 4|trace| - k iterations (k = NormalRecv events still queued, 1 <= k <= |trace|; the weight 4#NormalSent + 3#TunnelSent + 2#TunnelRecv + #NormalRecv drops by one per iteration) and returns a trace satisfying C14.holds, so the total theorems carry no hypothesis about the run; the caps are tight and the strict time bound is necessary (kernel-checked witnesses, C14_strict_bound_needed: a packet exactly Duration::MAX after the first is never served). Runs with continue_after_all_normal on or an explicit packets-per-second limit are covered by the conditional C14_identity and the monitor. The monitor evaluates the same predicate on every generated run of the implementation through sim and sim_advanced under every filter combination, and the exact-trace correspondence ties the model to the code.",
+         "Progress is proved too (C14_progress, C14_identity_total, _raw_total, _sim_total; Proofs/SimProgress.lean): for every non-empty time-ordered trace strictly within Duration::MAX, limit fractions in [0,1], continue_after_all_normal off, max_sim_iterations and max_trace_length each 0 or at least 4 x |trace| (and model loop fuel of that size), the machine-less run never faults, ends because all normal packets were processed after exactly 4|trace| - k iterations (k = NormalRecv events still queued, 1 <= k <= |trace|; the weight 4#NormalSent + 3#TunnelSent + 2#TunnelRecv + #NormalRecv drops by one per iteration) and returns a trace satisfying C14.holds, so the total theorems carry no hypothesis about the run; the caps are tight and the strict time bound is necessary (kernel-checked witnesses, C14_strict_bound_needed: a packet exactly Duration::MAX after the first is never served). Runs with continue_after_all_normal on or an explicit packets-per-second limit are covered by the conditional C14_identity and the monitor. The monitor evaluates the same predicate on every generated run of the implementation through sim and sim_advanced under every filter combination, and the exact-trace correspondence ties the model to the code. Monitor tied to the model (Proofs/SimMonitorAccept.lean): C14_monitor_accepts_model - under the trace, fraction, stop-setting and budget hypotheses of C14_identity_total and for EVERY setting of the two caps, every filter and both APIs, C14.monitor returns no failure on the model's own observation of a run; C14_monitor_hypotheses_needed gives for each input hypothesis a kernel-checked model observation the monitor rejects without it (packet exactly Duration::MAX away, no normal line, invalid fraction, trace not time-ordered, model budget).",
     ref="7 (C14), 12.8",
     technique="Lean 4 lemmas on the simulator model (per-hop) + spec monitor of the composed statement on the implementation's traces + exact-trace differential correspondence",
     note=SIM_NOTE,
@@ -159,7 +159,7 @@ CLAIMED["C14"] = dict(
 CLAIMED["C15"] = dict(
     text="Proof (Lean 4) on the simulator model for every machine set, trace (also raw traces with sn/rn/sp/rp lines: padding lines are ignored), network, fractions, stop setting and oracle: each side processes at most as many normal TunnelSent events as its share of the input and exactly that many when the run "
          "stops because all normal packets were processed (counting invariant over the bit-faithful heap), also stated on the returned trace; recorded times are monotone and the final sort is the identity; causality over the whole trace (C15_causality_matching: the monitor's own matching predicate holds of the model's "
-         "unfiltered non-faulting trace - every TunnelRecv has a distinct earlier TunnelSent of the same kind on the other side at least one delay before, via a Hall-to-matching lemma on ascending lists); the PaddingSent arm never creates or duplicates a normal packet.",
+         "unfiltered non-faulting trace - every TunnelRecv has a distinct earlier TunnelSent of the same kind on the other side at least one delay before, via a Hall-to-matching lemma on ascending lists); the PaddingSent arm never creates or duplicates a normal packet. Monitor tied to the model (Proofs/SimMonitorAccept.lean): C15_monitor_accepts_model_partial - for every case, run, oracle and budget the monitor (order, causality matching, conservation with its own completeness flag) accepts the model's observation provided a run that ended because pick_next returned None left no normal packet queued; C15_monitor_accepts_model derives that guard from the input bounds of C19_total; C15_monitor_rejects_unreachable_packet shows it is needed (a packet Duration::MAX after the clock, outside the u64 nanosecond range of trace files).",
     ref="7 (C15), 12.8",
     technique="Lean 4 counting invariant over the heap model + per-arm theorems + causality/conservation monitor on the implementation's traces + exact-trace differential correspondence",
     note=SIM_NOTE,
@@ -192,7 +192,7 @@ CLAIMED["C18"] = dict(
 CLAIMED["C19"] = dict(
     text="Proof (Lean 4) on the simulator model for every machine set, queue, arguments and oracle: every filter setting returns exactly the unfiltered trace filtered by the observation-level predicate when the length cap does not bind, and a prefix of it when it does; "
          "the run is a function of (machines, queue, arguments, oracle); pick_next always terminates within pickMeasure+1 recursive calls; the returned event is never before the clock; a run never ends in one of the five BUG assertions, in backwards time, exhausted fuel or divergence, "
-         "and for packets-per-second limits >= 1 not in a division by zero (fix 4ed778e; exactly the limit 0 still divides by zero); iteration and length bounds are respected. Reproducibility of the real code (same seed twice, all filter combinations) and agreement with the model are checked on every generated run. Totality with machines is a theorem too (C19_total, _queue, _raw, _returns; Proofs/SimNoFault*.lean): for validated machines on both sides, fractions in [0,1], a non-empty trace with times <= T, network delay d, a packets-per-second limit absent or >= 1, a cap of N >= 1 iterations (max_sim_iterations = N, or max_trace_length = N with both filters off) and the explicit guard (N+2) * span(N,T,d) <= Duration::MAX with span = T + 5d + 2N(N 48h + N 1s) + N(96h + d + N 1s) (satisfied e.g. up to N = 37650 for a 1 s trace), the run ends in NONE of the model's fault classes - checked-duration overflow, unwrap on None, a fault inside either framework (composes C01's potential argument and C04's slot invariant), machine id out of range, empty queue, invalid construction, BUG assertions, backwards time, fuel, divergence - for every oracle, stopping within N iterations; the key invariant is that a queued TunnelSent is at most k x 48 h old after k iterations, which bounds every aggregate delay and the clock polynomially; C19_total_guard_needed shows that some bound on the delay is necessary (5e27 ns overflows the 4 x delay multiple).",
+         "and for packets-per-second limits >= 1 not in a division by zero (fix 4ed778e; exactly the limit 0 still divides by zero); iteration and length bounds are respected. Reproducibility of the real code (same seed twice, all filter combinations) and agreement with the model are checked on every generated run. Totality with machines is a theorem too (C19_total, _queue, _raw, _returns; Proofs/SimNoFault*.lean): for validated machines on both sides, fractions in [0,1], a non-empty trace with times <= T, network delay d, a packets-per-second limit absent or >= 1, a cap of N >= 1 iterations (max_sim_iterations = N, or max_trace_length = N with both filters off) and the explicit guard (N+2) * span(N,T,d) <= Duration::MAX with span = T + 5d + 2N(N 48h + N 1s) + N(96h + d + N 1s) (satisfied e.g. up to N = 37650 for a 1 s trace), the run ends in NONE of the model's fault classes - checked-duration overflow, unwrap on None, a fault inside either framework (composes C01's potential argument and C04's slot invariant), machine id out of range, empty queue, invalid construction, BUG assertions, backwards time, fuel, divergence - for every oracle, stopping within N iterations; the key invariant is that a queued TunnelSent is at most k x 48 h old after k iterations, which bounds every aggregate delay and the clock polynomially; C19_total_guard_needed shows that some bound on the delay is necessary (5e27 ns overflows the 4 x delay multiple). Monitor tied to the model (Proofs/SimMonitorAccept.lean): C19_monitor_accepts_model - on every list of runs whose observations are the model's, with runs of the same base (seed) sharing the oracle, C19.monitor reports exactly its panic entries and no bounds, determinism or projection failure; an observation is a panic iff the model run ends in a fault (C19_monitor_panics_exact), and under the guard of C19_total the result is empty (C19_monitor_accepts_model_total); both hypotheses on the run list are shown necessary.",
     ref="7 (C19), 12.8",
     technique="Lean 4 projection/prefix/totality theorems on the simulator model + repeat-run and filter differential on the implementation + exact-trace differential correspondence",
     note=SIM_NOTE,
